@@ -299,7 +299,7 @@ def sart_oracles(ctx, c):
 
 
 def sart_stream(ctx):
-    cases = sart_cases(ctx, ctx.n(800, 12000), 8 if ctx.tier == 'quick' else 12)
+    cases = sart_cases(ctx, ctx.n(800, 30000), 8 if ctx.tier == 'quick' else 12)
     outs = ctx.driver([c['line'] for c in cases])
     for c, o in zip(cases, outs):
         ctx.traces += 1
@@ -365,7 +365,7 @@ def exact_stream(ctx):
     from cherab.tools.inversions import invert_sart, invert_constrained_sart
     rng = ctx.rng
     lines, expect = [], []
-    for it in range(ctx.n(150, 1500)):
+    for it in range(ctx.n(150, 3000)):
         W, b, m, n = exact_system(rng)
         relax = rng.choice([1.0, 0.5, 0.25])
         x0 = [rng.randint(0, 8) / 4.0 for _ in range(n)]
@@ -437,7 +437,7 @@ def fixed_point_stream(ctx):
     (unconstrained, relaxation <= 1 where the iteration does not amplify the rounding of b = W x): tolerance 1e-10."""
     from cherab.tools.inversions import invert_sart, invert_constrained_sart
     rng = ctx.rng
-    for it in range(ctx.n(200, 2500)):
+    for it in range(ctx.n(200, 6000)):
         m, n = rng.randint(1, 8), rng.randint(1, 8)
         exact = it % 4 != 0
         constrained = exact and rng.random() < 0.5
@@ -602,6 +602,7 @@ def nnls_oracle(ctx, rng, Wa, ba, alpha, La, st, res, spycall, desc, zclass=None
         ext_norm_bad = abs(float(rn_) - float(np.linalg.norm(A_ @ xs_ - b_))) > 1e-9 * (float(rn_) + float(np.linalg.norm(b_)))
         if ext_why or ext_norm_bad:
             import scipy
+            ctx.count('nnls:external-solver-returned-non-KKT-point')
             ctx.fail(SIG_NNLS_EXT,
                      'scipy.optimize.nnls (SciPy %s) returned a point that fails the KKT conditions of the system it was handed (%s; rnorm %r vs '
                      '|Ax-b| = %r); invert_regularised_nnls passes it on: x = %r is not a minimiser of |Wx-b|^2 + alpha^2|Lx|^2 over x >= 0 '
@@ -628,7 +629,7 @@ def lsq_stream(ctx):
     big = 8 if ctx.tier == 'quick' else 12
     real_nnls, real_lstsq, real_pinv = scipy.optimize.nnls, np.linalg.lstsq, scipy.linalg.pinv
     try:
-        for it in range(ctx.n(700, 10000)):
+        for it in range(ctx.n(700, 30000)):
             m, n = rng.randint(1, big), rng.randint(1, big)
             W, wk = gen_matrix(rng, m, n)
             b, bk = gen_b(rng, W, m, n)
